@@ -92,7 +92,7 @@ fn rulegen_stats() {
 fn try_rule(a: &[String]) {
     let rules: Vec<&str> = a[0].split(";;;").map(|s| s.trim()).collect();
     for w in &a[1..] {
-        let r = util::guarded(10_000_000, || asca::run(&[util::group(&rules)], &[w.clone()], &[], &[]));
+        let r = util::guarded(util::budget_for(w.chars().count(), a[0].chars().count()), || asca::run(&[util::group(&rules)], &[w.clone()], &[], &[]));
         match r {
             util::Out::Ok(Ok(v)) => println!("{} => {}", w, v.join(" ")),
             util::Out::Ok(Err(e)) => println!("{} => Err {:?}", w, e),
